@@ -389,7 +389,7 @@ func checkC02() fw.Check {
 	return fw.Check{
 		Prop:  "C02",
 		Level: "exploration",
-		Rule: "one case = (variant, reply form of the device-behaviour catalogue, TTL window, identifier base, destination position) run through the variant's real entry point on the simulated wire in a virtual-time bubble; every TTL of the window is answered in that form, with seeded loss/duplication/late arrival of other replies; oracle = reference fold (parallel) / per-hop completeness (serial). " +
+		Rule: "one case = (variant, reply form of the device-behaviour catalogue, TTL window, identifier base, destination position) run through the variant's real entry point on the simulated wire in a virtual-time bubble, in the noisy runs with the capture filter the variant installs enforced in front of the handle (the emitted classic-BPF program, evaluated by a BPF VM); every TTL of the window is answered in that form, with seeded loss/duplication/late arrival of other replies; oracle = reference fold (parallel) / per-hop completeness (serial). " +
 			"distinct_nontrivial counts distinct (variant, form, window) triples in which at least one must-accept reply of that form was read by the tool and the run succeeded",
 		Workers:       16,
 		MinNontrivial: 40,
@@ -422,7 +422,13 @@ func checkC02() fw.Check {
 											if rep > 0 && !noise {
 												continue
 											}
-											sc := scenario{tag: fmt.Sprintf("%s dest@%d rep%d noise%v", id, dp, rep, noise), v: v, win: w, b: b,
+											// the capture filter the variant installs is part of the receive path (real program, run by
+											// the simulated handle's BPF VM): enforced in the noisy runs, absent in the quiet one
+											mode := simnet.FilterOff
+											if noise {
+												mode = simnet.FilterEnforce
+											}
+											sc := scenario{tag: fmt.Sprintf("%s dest@%d rep%d noise%v", id, dp, rep, noise), v: v, win: w, b: b, mode: mode,
 												model: func(e *simEnv) *pathModel { return pathFor(e, fm, 1, w, dp, c.Rng, noise) }}
 											out := runScenario(c, sc)
 											if out == nil {
